@@ -82,6 +82,17 @@ func snapshotAll(db gdbi.GraphDB) map[string]interface{} {
 		}
 		sort.Strings(adj)
 		out["A:"+g] = adj
+		// what the label index says
+		labels, _ := gi.ListVertexLabels()
+		sort.Strings(labels)
+		idx := []string{}
+		for _, l := range labels {
+			for id := range gi.VertexLabelScan(ctx, l) {
+				idx = append(idx, fmt.Sprintf("label %q: %q", l, id))
+			}
+		}
+		sort.Strings(idx)
+		out["L:"+g] = idx
 	}
 	return out
 }
@@ -89,8 +100,22 @@ func snapshotAll(db gdbi.GraphDB) map[string]interface{} {
 // remove from snapshot `after` exactly the expected additions and compare with `before`
 func sameExcept(before, after map[string]interface{}, rm func(key string, items []string) []string, newGraph string, isNew bool) bool {
 	a2 := map[string]interface{}{}
+	if !isNew {
+		// element writes go to graph "g": its label index gains the written element by design; the label index
+		// of every OTHER graph must stay as it was
+		b2 := map[string]interface{}{}
+		for k, v := range before {
+			if k != "L:g" {
+				b2[k] = v
+			}
+		}
+		before = b2
+	}
 	for k, v := range after {
-		if isNew && (k == "V:"+newGraph || k == "E:"+newGraph || k == "A:"+newGraph) {
+		if !isNew && k == "L:g" {
+			continue
+		}
+		if isNew && (k == "V:"+newGraph || k == "E:"+newGraph || k == "A:"+newGraph || k == "L:"+newGraph) {
 			if _, had := before[k]; !had {
 				if l, ok := v.([]string); ok && len(l) == 0 {
 					continue
@@ -172,6 +197,31 @@ func execC16(in c16Input) c16Obs {
 			for _, og := range []string{"g", "gg"} {
 				ogi, _ := db.Graph(og)
 				if ogi.GetVertex("zz", true) != nil {
+					others = false
+				}
+			}
+			// deleting the new graph leaves every other graph as it was, including a graph whose name merely
+			// starts with the deleted name, and that graph keeps indexing what is written to it
+			sib := g + "2"
+			if db.AddGraph(sib) == nil {
+				sgi, _ := db.Graph(sib)
+				sgi.AddVertex([]*gdbi.Vertex{gdbi.NewElementFromVertex(&gripql.Vertex{Gid: "s1", Label: "S"})})
+				mid := snapshotAll(db)
+				db.DeleteGraph(g)
+				end := snapshotAll(db)
+				for _, og := range []string{"g", "gg", sib} {
+					for _, pre := range []string{"V:", "E:", "A:", "L:"} {
+						if !reflect.DeepEqual(mid[pre+og], end[pre+og]) {
+							others = false
+						}
+					}
+				}
+				sgi.AddVertex([]*gdbi.Vertex{gdbi.NewElementFromVertex(&gripql.Vertex{Gid: "s2", Label: "S"})})
+				found := 0
+				for range sgi.VertexLabelScan(ctx, "S") {
+					found++
+				}
+				if found != 2 {
 					others = false
 				}
 			}
